@@ -887,24 +887,25 @@ type srcA struct {
 	cfg    string
 	layout qs.Layout // = SegSizes / Deleted of the cfg
 	engs   []string
+	calls  int // = MaxCalls of the cfg: complete programs are replayed
 }
 
 func engineA(c *core.Ctx) error {
-	l22 := qs.Layout{Segs: []int{2, 2}, Deleted: []int{1}}
-	l4 := qs.Layout{Segs: []int{4}, Deleted: []int{1}}
-	srcs := []srcA{{"MCSearchers_c08_replay_q.cfg", l22, []string{qs.EngScorch, qs.EngUpside}},
-		// one merged segment: the 1-hit postings iterators
-		{"MCSearchers_c08_replay_m.cfg", l4, []string{qs.EngScorchMerged}}}
-	maxCalls := 2
+	mem := []string{qs.EngScorch, qs.EngUpside}
+	mrg := []string{qs.EngScorchMerged} // one merged segment: the 1-hit postings iterators
+	srcs := []srcA{
+		{"MCSearchers_c08_replay_q.cfg", qs.Layout{Segs: []int{2, 1}, Deleted: []int{1}}, mem, 3},
+		{"MCSearchers_c08_replay_m.cfg", qs.Layout{Segs: []int{3}, Deleted: []int{1}}, mrg, 3},
+	}
 	if c.Thorough() {
-		srcs[0].cfg = "MCSearchers_c08_replay_t.cfg"
+		srcs = []srcA{
+			{"MCSearchers_c08_replay_t.cfg", qs.Layout{Segs: []int{2, 2}, Deleted: []int{1}}, mem, 3},
+			{"MCSearchers_c08_replay_tm.cfg", qs.Layout{Segs: []int{4}, Deleted: []int{1}}, mrg, 3},
+			{"MCSearchers_c08_replay_td.cfg", qs.Layout{Segs: []int{2, 1}, Deleted: []int{1}}, mem, 2},
+		}
 	}
 	for _, src := range srcs {
-		mc := maxCalls
-		if strings.HasSuffix(src.cfg, "_t.cfg") {
-			mc = 3
-		}
-		if err := engineAOne(c, src, mc); err != nil {
+		if err := engineAOne(c, src, src.calls); err != nil {
 			return err
 		}
 	}
